@@ -39,6 +39,7 @@ pub fn probes(_tier: &str) -> Vec<String> {
     "probe.status.mismatch_rejected",
     "probe.stale_version_fetched",
     "probe.raw_list_ops",
+    "probe.dense_large_list",
   ]
   .iter()
   .map(|s| (*s).to_owned())
@@ -374,6 +375,43 @@ pub fn run(_params: &Params) {
         );
       }
       let _ = matches!(r, Err(JwtValidationError::Revoked));
+    }
+  }
+
+  // ---- a large, dense list: the encoded form exceeds the decompressor's internal buffer sizes ----
+  if ctx::choose(40) == 0 {
+    ctx::stat("probe.dense_large_list");
+    let entries = 300_000 + 8 * ctx::choose(40_000);
+    if let Ok(mut list) = StatusList2021::new(entries) {
+      let len = list.len();
+      // pseudo-random dense content derived from the tape
+      let mut x: u64 = ((ctx::draw_u32() as u64) << 32) | ctx::draw_u32() as u64 | 1;
+      let mut set_count = 0usize;
+      for i in 0..len {
+        x ^= x << 13;
+        x ^= x >> 7;
+        x ^= x << 17;
+        if x & 1 == 1 {
+          let _ = list.set(i, true);
+          set_count += 1;
+        }
+      }
+      let enc = list.clone().into_encoded_str();
+      match StatusList2021::try_from_encoded_str(&enc) {
+        Ok(back) if back == list => {}
+        Ok(back) => ctx::violation(
+          "C12",
+          "C12.encoded_form_round_trip",
+          "dense-large/encode-decode-differs",
+          format!("a {len}-entry list with {set_count} set entries ({} encoded characters) decodes to a {}-entry list", enc.len(), back.len()),
+        ),
+        Err(e) => ctx::violation(
+          "C12",
+          "C12.encoded_form_round_trip",
+          "dense-large/own-encoding-rejected",
+          format!("a {len}-entry list with {set_count} set entries does not decode again: {e}"),
+        ),
+      }
     }
   }
 
